@@ -65,6 +65,8 @@ impl Drv {
         let n: usize = field(&o, "stream").and_then(|x| x.parse().ok()).unwrap_or(0);
         let outn: usize = field(&o, "out").and_then(|x| x.parse().ok()).unwrap_or(usize::MAX);
         self.last_end = field(&o, "end") == Some("true");
+        // "beyond the last stream the active stream is 'none' permanently": with no active stream every successful call reports the end
+        if act.is_none() && !self.last_end { or.fail("parse() with no active stream did not report end-of-stream".into(), log.replay_block(), format!("{}:none-not-ended", self.prop)); }
         if outn != growth.len() { or.fail(format!("Status.output = {outn} but output_buffer grew by {} bytes", growth.len()), log.replay_block(), format!("{}:output-count", self.prop)); }
         let data: Vec<u8> = if dest.is_some() { unhex(field(&o, "data").unwrap_or("-")) } else {
             if !self.buf.starts_with(&old_buf) || self.buf.len() != old_buf.len() + n { or.fail(format!("stream_buffer did not grow by exactly Status.stream = {n} bytes at its tail"), log.replay_block(), format!("{}:stream-count", self.prop)); vec![] }
@@ -580,17 +582,20 @@ pub fn run_c05(ctx: &mut Ctx) {
     let mut rng = ctx.rng.fork();
     for ci in 0..ctx.n(1000, 6000) {
         if or.saturated() { or.count("stopped_early_saturated"); break; }
-        let k = 1 + rng.usize_below(4);
+        // a few connections with a buffer beyond 2^16 and 65535-byte records: a full buffer of look-ahead is then > 64 KiB at a hand-off
+        let large = ci % 200 == 33;
+        let k = if large { 1 + rng.usize_below(2) } else { 1 + rng.usize_below(4) };
         let mc = 1 + rng.usize_below(64);
-        let b = *rng.pick(&[64usize, 96, 128, 256, 1024, 8192]);
+        let b = if large { *rng.pick(&[66_000usize, 131_072]) } else { *rng.pick(&[64usize, 96, 128, 256, 1024, 8192]) };
+        if large { or.count("large_buffer_connections"); }
         struct R { pre: Preamble, case: StreamCase, wire_pre: Vec<u8>, wire_str: Vec<u8> }
         let mut reqs: Vec<R> = vec![];
         for _ in 0..k {
             let pairs: Vec<(Vec<u8>, Vec<u8>)> = gen_pairs(&mut rng, false).into_iter().filter(|(n, v)| n.len() + v.len() + 13 <= b).collect();
             let nls = rng.below(4);
-            let mut case = gen_stream_case(&mut rng, nls, mc, false);
+            let mut case = gen_stream_case(&mut rng, nls, mc, large);
             // every third case: one long record (> 256 bytes) so that a caller stopping mid-record leaves every possible amount outstanding
-            if rng.chance(1, 3) && !case.contents.is_empty() {
+            if !large && rng.chance(1, 3) && !case.contents.is_empty() {
                 let (s0, _) = case.contents[0];
                 let len = 257 + rng.usize_below(1300);
                 let c = rng.bytes(len);
@@ -622,7 +627,7 @@ pub fn run_c05(ctx: &mut Ctx) {
         for (ri, r) in reqs.iter().enumerate() {
             // ---- preamble through the request parser (may read ahead into the streams)
             let lim0 = if ri + 1 == reqs.len() { wire.len() } else { bounds[ri] };   // one request outstanding: no bytes of request i+1 yet
-            let ch = Chunking::pick(&mut rng, lim0 - pos);
+            let ch = if large { if rng.chance(1, 2) { Chunking::Fill } else { Chunking::All } } else { Chunking::pick(&mut rng, lim0 - pos) };
             let mut done = false;
             while !done {
                 if pos >= lim0 || free == 0 { break; }
@@ -667,7 +672,7 @@ pub fn run_c05(ctx: &mut Ctx) {
                 // the client keeps one request outstanding: bytes of request i+1 arrive only after request i was closed
                 let sub_end = if how == 1 { pos + rng.usize_below(end_of_req.saturating_sub(pos) + 1) } else { end_of_req };
                 let sub_end = sub_end.max(pos).min(end_of_req.max(pos));
-                let _ = drive_schedule(&mut log, &mut im, &mut or, &mut rng, &mut d, &wire[..sub_end], pos, r.case.role, mode, false, 64);
+                let _ = drive_schedule(&mut log, &mut im, &mut or, &mut rng, &mut d, &wire[..sub_end], pos, r.case.role, mode, false, if large { 70_000 } else { 64 });
                 pos = d.calls;
                 if let Some(e) = &d.last_err { or.fail(format!("stream parser failed with {e} on well-formed traffic"), log.replay_block(), "C05:stream-error".into()); okcase = false; break; }
                 for (s, c) in &r.case.contents {
@@ -694,7 +699,7 @@ pub fn run_c05(ctx: &mut Ctx) {
                 if d.boundary { break; }
                 if d.free == 0 { d.simple(&mut log, &mut im, "str.compress"); }
                 let lim = end_of_req.max(pos);
-                let n = if pos < lim { (if ci % 2 == 0 { 1 } else { 1 + rng.usize_below(64) }).min(lim - pos).min(d.free) } else { 0 };
+                let n = if pos < lim { (if large { d.free.max(1) } else if ci % 2 == 0 { 1 } else { 1 + rng.usize_below(64) }).min(lim - pos).min(d.free) } else { 0 };
                 if !d.parse(&mut log, &mut im, &mut or, &wire[pos..pos + n], None) && d.last_err.as_deref() != Some("abort") { break; }
                 pos += n;
                 if pos >= lim && n == 0 && !d.boundary { break; }
